@@ -1,0 +1,6 @@
+//go:build verif
+
+package geyser
+
+// VerifJavaCompatibleUsername is javaCompatibleUsername.
+func VerifJavaCompatibleUsername(name string) string { return javaCompatibleUsername(name) }
